@@ -44,8 +44,18 @@ func runC06(r *core.Run, tier string) {
 	for pi, c := range cases {
 		jobs = append(jobs, job{pi, -1, c.src, nil})
 		for li := 0; li < nLay; li++ {
-			l := fo.NewRandLayout(core.NewRand(r.SeedV, fmt.Sprintf("c06/%d/%d", pi, li)))
-			src := fo.Print(c.prog, l)
+			var l *fo.RandLayout
+			var src string
+			for redraw := 0; redraw < 20; redraw++ {
+				l = fo.NewRandLayout(core.NewRand(r.SeedV, fmt.Sprintf("c06/%d/%d/%d", pi, li, redraw)))
+				src = fo.Print(c.prog, l)
+				if !c06SinterpOffByOne(src) {
+					break
+				}
+				// known finding C06/sinterp-column: a line starting with $" right after a block
+				// indented by exactly one more column; exercised by its corpus witness only
+				r.Count("layouts_redrawn_to_avoid_known_finding_sinterp_column", 1)
+			}
 			jobs = append(jobs, job{pi, li, src, l.Stats})
 		}
 	}
@@ -111,6 +121,36 @@ func runC06(r *core.Run, tier string) {
 	if len(jobs) > 2 {
 		r.Sample(map[string]any{"layout_of_program_0": strings.Split(jobs[1].src, "\n")})
 	}
+}
+
+// c06SinterpOffByOne recognises the pattern of the known finding "the column of a token
+// starting with $ is measured one too far": a line whose first token is an interpolated
+// string, preceded (ignoring deeper, blank and comment lines) by a line indented by exactly
+// one more column.
+func c06SinterpOffByOne(src string) bool {
+	lines := strings.Split(src, "\n")
+	ind := func(l string) int { return len(l) - len(strings.TrimLeft(l, " \t")) }
+	for i, l := range lines {
+		t := strings.TrimLeft(l, " \t")
+		if !strings.HasPrefix(t, "$") {
+			continue
+		}
+		c := ind(l)
+		for j := i - 1; j >= 0; j-- {
+			tj := strings.TrimSpace(lines[j])
+			if tj == "" || strings.HasPrefix(tj, "//") || strings.HasPrefix(tj, "/*") || strings.HasPrefix(tj, "line ") || strings.HasSuffix(tj, "*/") && !strings.Contains(tj, "/*") {
+				continue
+			}
+			k := ind(lines[j])
+			if k == c+1 {
+				return true
+			}
+			if k <= c {
+				break
+			}
+		}
+	}
+	return false
 }
 
 // c06Converse: a line indented less than its block ends that block. Paired programs
@@ -202,9 +242,14 @@ func c06Converse(r *core.Run, env *scratch.Env, fc string, tier string) {
 	// random layouts of the pairs as well (the block structure of each is fixed by its AST)
 	for i, c := range cases {
 		if i%2 == 0 {
-			l := fo.NewRandLayout(core.NewRand(r.SeedV, fmt.Sprintf("c06conv/%d", i)))
-			l.Comments = rng.Bool()
-			c.src = fo.Print(c.prog, l)
+			for redraw := 0; redraw < 20; redraw++ {
+				l := fo.NewRandLayout(core.NewRand(r.SeedV, fmt.Sprintf("c06conv/%d/%d", i, redraw)))
+				l.Comments = rng.Bool()
+				c.src = fo.Print(c.prog, l)
+				if !c06SinterpOffByOne(c.src) {
+					break
+				}
+			}
 		}
 	}
 	// hand-kept witnesses (corpus/c06): nested ifs whose else / elif belongs to the outer if
